@@ -30,12 +30,12 @@ from checks.common import Cases
 from checks import c05
 
 LEVEL = "proof"
-IMPORTS = "Occ Degree Linear LinearProofs SolveWrap Gen.GenTables"
+IMPORTS = "Occ Degree Linear LinearProofs SolveWrap Vars Gen.GenTables"
 DEFS = c05.DEFS + """
 Definition bnd_eqb (a b : option Q * option Q) : bool := opt_eqb Qeq_bool (fst a) (fst b) && opt_eqb Qeq_bool (snd a) (snd b).
 """
 SEAM_CHECKER = ("fun k => match k with (V, obj, mx, cs, (c, aub, bub, aeq, beq), bnds, declared) => "
-                "let d := extract_lp V obj mx cs in "
+                "let d := extract_lp V obj mx cs in list_eqb String.eqb (problem_variables (Some obj) (map fst cs)) V && "
                 "list_eqb Qeq_bool (linprog_c d) c && qrows_eqb (lp_Aub d) aub && list_eqb Qeq_bool (lp_bub d) bub "
                 "&& qrows_eqb (lp_Aeq d) aeq && list_eqb Qeq_bool (lp_beq d) beq && list_eqb bnd_eqb bnds declared end")
 SEAM_TYPE = ("list string * expr * bool * list (expr * sense) * (list Q * list (list Q) * list Q * list (list Q) * list Q) * "
